@@ -22,7 +22,7 @@ impl Property for Prop {
         "C20"
     }
     fn rule(&self) -> &'static str {
-        "lengths: key = payload length 0..=4000; for each: the four packet kinds x label kinds (6-byte, 3-byte, broadcast, re-use for start/complete) x seeded fragment id, protocol type >= 0x0600, total length, CRC; each well-formed description (GSE length consistent with its fields; intermediate payload >= 1 byte) is generated, compared byte for byte with the independent serialiser, parsed back (must equal the description), compared with what the encapsulator emits when driven to the same fields (complete packet; first fragment with the same split; intermediate / end from a context at the same position) and fed to the decapsulator (accepted with the same field values). Each of these comparisons is an evaluation; fingerprint = (kind, label kind, payload length)."
+        "lengths: key = payload length 0..=4000; for each: the four packet kinds x label kinds (6-byte, 3-byte, broadcast, re-use for start/complete) x seeded fragment id, protocol type >= 0x0600, total length, CRC; each well-formed description (GSE length consistent with its fields; intermediate payload >= 1 byte) is generated, compared byte for byte with the independent serialiser, parsed back (must equal the description), compared with what the encapsulator emits when driven to the same fields (complete packet; first fragment with the same split; intermediate / end from a context at the same position) and fed to the decapsulator (accepted with the same field values; first fragments are completed by a utils-generated end fragment on memories of 1, 3, 5 and 6 slots; one first fragment in eight carries the whole PDU so that the end fragment carries only the CRC). Each of these comparisons is an evaluation; fingerprint = (kind, label kind, payload length)."
     }
     fn gens(&self, _cx: &Cx) -> Vec<Gen> {
         vec![Gen { name: "lengths", count: 4001, exhaustive: true }]
@@ -85,7 +85,10 @@ impl Property for Prop {
             }
             // ------------------------------------------------ first fragment (payload = first n bytes of a longer PDU)
             if 3 + 2 + lb.len() + n <= 4095 {
-                let rest = 4 + rng.below(50); // >= 4 so that the PDU cannot fit the buffer as a complete packet
+                // >= 4 so that the PDU cannot fit the buffer as a complete packet and the encapsulator produces the
+                // same split; one case in eight: 0 (the first fragment carries the whole PDU, the end fragment only
+                // the CRC — a well-formed description the encapsulator never produces: encap comparison skipped)
+                let rest = if (n + label_bytes(&label).len()) % 8 == 5 { 0 } else { 4 + rng.below(50) };
                 let mut pdu = payload.clone();
                 pdu.extend(rng.bytes(rest));
                 let total = (2 + lb.len() + pdu.len()) as u16;
@@ -105,10 +108,12 @@ impl Property for Prop {
                     let mut enc = Encapsulator::new(DefaultCrc {});
                     let mut eb = vec![0u8; gl as usize + 2];
                     match guard(|| enc.encap(&pdu, frag_id, EncapMetadata::new(ptype, label), &mut eb)) {
+                        _ if rest == 0 => rep.count("c20.first-carrying-whole-pdu"),
                         Ok(Ok(EncapStatus::FragmentedPkt(m, c))) if m as usize == eb.len() && eb == buf && c.len_pdu_frag() as usize == n => {}
                         o => rep.violation("C20", format!("encap-differs:first:{}", lk), || format!("encap(pdu {}B, label {}, buffer {}B) = {:?} bytes {}, utils generate {}", pdu.len(), label_str(&label), eb.len(), o.map(|x| format!("{:?}", x)), hex_short(&eb, 40), hex_short(&buf, 40)), &replay),
                     }
-                    let mut dec = plain_dec(1, pdu.len(), 1, pdu.len(), MandTable::none());
+                    // memories of 1, 3, 5, 6 slots (the fragment id is seeded: every slot mapping is exercised)
+                    let mut dec = plain_dec([1usize, 3, 5, 6][n % 4], pdu.len(), 1, pdu.len(), MandTable::none());
                     let prime_label = Label::ThreeBytesLabel([7, 7, 7]);
                     if label == Label::ReUse {
                         let pp = crate::hostile::mk_complete(1, &[7, 7, 7], 0x0800, b"");
